@@ -135,7 +135,9 @@ def corpus():
     out += ["T06", "---31T06:31", "-W-4T-31"]
     # durations
     out += ["P1Y2M3DT4H5M6S", "P1W", "-P1D", "PT1,5H", "PT0.25S", "P0Y", "P1M", "PT1M", "P0001-02-03T04:05:06",
-            "P00010203T040506", "P0001-003T04", "-PT1H30M", "P12Y", "PT36H", "P2DT5,5H"]
+            "P00010203T040506", "P0001-003T04", "-PT1H30M", "P12Y", "PT36H", "P2DT5,5H",
+            # number spellings Python's float() knows and ISO 8601 does not
+            "PT1e999S", "PT1e3S", "PT1_0S", "PT1.5e1H", "PT1infS", "PT1nanM"]
     # recurrences
     out += ["R/2015-12-31T00Z/P1D", "R5/20151231T0000Z/PT1H", "R3/P1M/2016-01-31T00:00:00Z", "R/2015/2016",
             "R2/2015-W53-4T06Z/2016-001T06Z", "R1/P1D/2015-365", "R10/+002015-12-31T06:31:01-05:30/P1Y2M",
@@ -225,7 +227,13 @@ def check_text(ctx, text, origin):
                         if r[8] is not None:
                             ctx.violation("accepted_invalid", sig, case, "valid anchor points",
                                           {"result": impl.sstr(obj), "why": r[8]})
-            elif not isinstance(obj, impl.Duration):
+            elif isinstance(obj, impl.Duration):
+                import math
+                comps = [getattr(obj, a) for a in ("years", "months", "weeks", "days", "hours", "minutes", "seconds")]
+                if any(v is not None and (isinstance(v, float) and not math.isfinite(v)) for v in comps):
+                    ctx.violation("accepted_invalid", dict(sig, why="non-finite component"), case, "a Duration of finite length",
+                                  repr(comps))
+            else:
                 ctx.violation("accepted_invalid", sig, case, "a library value", repr(type(obj)))
         except Exception as ex:
             ctx.violation("accepted_invalid", dict(sig, exc=type(ex).__name__), case, "inspectable object", repr(ex))
